@@ -3,11 +3,10 @@ import Taskpool.Inv.GoodInv
 /-! **A spawner that was never cancelled ends only when its work is done — the walk.**  `Pool.FinOK` (`Inv/Fin.lean`) is
 preserved by every step of the pool machine in histories without `gather_and_close`.
 
-The walking predicate `FK M p` is `FinOK p` strengthened by
+The walking predicate `FK M p` is `FinOK p` (its per-request clauses collected in `RG`) strengthened by
 * `cw` in existential form (a cancelled entry of the pool's waiter queue belongs to an *existing* request that was filed
   as cancelled — so that appending a request cannot break it),
-* the per-request clauses `ka`/`km`/`kw` (an apply-style request has no items, a map-style request has `remaining = 0`,
-  only a map-style request waits for its own semaphore),
+  — between two steps this is part of `Want` (`fk_of_wantFin`),
 * `pin`: the spawners in `M` (the map-style spawner whose handle is being run) exist, are map-style and their asyncio
   Task is not done — facts that have to survive the user code of the argument iterator.
 
@@ -102,6 +101,9 @@ theorem FK.finOK {p : Pool} (h : FK M p) : FinOK p where
   ir := fun m r hp => (h.rg m r hp).ir
   ok := fun m r hp => (h.rg m r hp).ok
   nc1 := fun m r hp => (h.rg m r hp).kn
+  ka := fun m r hp => (h.rg m r hp).ka
+  km := fun m r hp => (h.rg m r hp).km
+  kw := fun m r hp => (h.rg m r hp).kw
 
 theorem fk_weaken {M' : Nat → Prop} {p : Pool} (h : FK M p) (hM : ∀ m, M' m → M m) : FK M' p :=
   { h with pin := fun m hm => h.pin m (hM m hm) }
@@ -150,7 +152,7 @@ queue was there before or belongs to a request filed as cancelled -/
 theorem fk_mod {p q : Pool} (h : FK M p) (ha : q.apis = p.apis) (hc : q.closed = p.closed) (m : Nat) (f : Req → Req)
     (hr : q.reqs = p.reqs.modify m f)
     (hf : ∀ r, p.reqs[m]? = some r → RG r → RG (f r) ∧ (r.everCancelled = true → (f r).everCancelled = true) ∧
-      (f r).kind = r.kind ∧ (f r).outcome = r.outcome)
+      (M m → (f r).kind = r.kind ∧ (f r).outcome = r.outcome))
     (hw : ∀ w' ∈ q.sem.waiters, w'.st = .cancelled →
       w' ∈ p.sem.waiters ∨ ∃ r, q.reqs[w'.owner]? = some r ∧ r.everCancelled = true) : FK M q := by
   have hec : ∀ (i : Nat) (r : Req), p.reqs[i]? = some r → r.everCancelled = true →
@@ -180,13 +182,14 @@ theorem fk_mod {p q : Pool} (h : FK M p) (ha : q.apis = p.apis) (hc : q.closed =
     refine ⟨_, by rw [hr]; exact modify_get hp, ?_⟩
     split
     · rename_i e; subst e
-      obtain ⟨_, _, a, b⟩ := hf r hp (h.rg _ r hp)
+      obtain ⟨_, _, ab⟩ := hf r hp (h.rg _ r hp)
+      obtain ⟨a, b⟩ := ab hi
       exact ⟨a ▸ hk, b ▸ ho⟩
     · exact ⟨hk, ho⟩
 
 theorem fk_modReq {p : Pool} (h : FK M p) (m : Nat) (f : Req → Req)
     (hf : ∀ r, p.reqs[m]? = some r → RG r → RG (f r) ∧ (r.everCancelled = true → (f r).everCancelled = true) ∧
-      (f r).kind = r.kind ∧ (f r).outcome = r.outcome) : FK M (p.modReq m f) :=
+      (M m → (f r).kind = r.kind ∧ (f r).outcome = r.outcome)) : FK M (p.modReq m f) :=
   fk_mod h rfl rfl m f rfl hf (fun _ hw' _ => Or.inl hw')
 
 /-- a change to one request in fields the invariant does not read -/
@@ -198,7 +201,7 @@ theorem fk_modReq_triv {p : Pool} (h : FK M p) (m : Nat) (f : Req → Req)
     (e9 : ∀ r, (f r).frame = .waitMapSem → r.frame = .waitMapSem) (e10 : ∀ r, (f r).nc = r.nc) :
     FK M (p.modReq m f) :=
   fk_modReq h m f (fun r _ hg =>
-    ⟨rg_of_eq hg (e1 r) (e2 r) (e3 r) (e4 r) (e5 r) (e6 r) (e7 r) (e8 r) (e9 r) (e10 r), fun a => (e2 r).symm ▸ a, e8 r, e4 r⟩)
+    ⟨rg_of_eq hg (e1 r) (e2 r) (e3 r) (e4 r) (e5 r) (e6 r) (e7 r) (e8 r) (e9 r) (e10 r), fun a => (e2 r).symm ▸ a, fun _ => ⟨e8 r, e4 r⟩⟩)
 
 /-- `fk_modReq_triv` for a rewriting function that is visible in the goal -/
 macro "fk_mr" h:term : term =>
@@ -265,7 +268,8 @@ theorem fk_modGather {p : Pool} (h : FK M p) (g : Nat) (f : Gather → Gather) :
   fk_of_eq h rfl rfl rfl rfl
 
 /-- a rewrite of a background call that keeps its kind -/
-theorem fk_modApi {p : Pool} (h : FK M p) (a : Nat) (f : Api → Api) (hk : ∀ x, (f x).kind = x.kind) :
+theorem fk_modApi {p : Pool} (h : FK M p) (a : Nat) (f : Api → Api)
+    (hk : ∀ x, (f x).kind = x.kind := by intro x; rfl) :
     FK M (p.modApi a f) := by
   refine { h with nog := ?_ }
   intro i A' hq re
@@ -281,7 +285,7 @@ theorem fk_schedTask {p : Pool} (h : FK M p) (t : Nat) : FK M (p.schedTask t) :=
 theorem fk_schedApi {p : Pool} (h : FK M p) (a : Nat) : FK M (p.schedApi a) := by
   unfold schedApi
   refine fk_emitRef ?_ _
-  exact fk_modApi h a _ (fun _ => rfl)
+  exact fk_modApi h a _
 
 theorem fk_schedMeta {p : Pool} (h : FK M p) (m : Nat) : FK M (p.schedMeta m) := by
   unfold schedMeta
@@ -321,7 +325,7 @@ theorem fk_releaseMap {p : Pool} (h : FK M p) (m : Nat) : FK M (p.releaseMap m) 
   · rename_i r hp
     refine fk_schedOpt (fk_modReq h m _ (fun r0 hp0 hg => ?_)) _
     rw [hp] at hp0; cases hp0
-    refine ⟨rg_of_eq hg id rfl (fun w hw hc => ?_) rfl rfl rfl rfl rfl id rfl, id, rfl, rfl⟩
+    refine ⟨rg_of_eq hg id rfl (fun w hw hc => ?_) rfl rfl rfl rfl rfl id rfl, id, fun _ => ⟨rfl, rfl⟩⟩
     exact wakeNextL_cancelled _ _ _ hw hc
 
 /-! ### asyncio `Task.cancel()` -/
@@ -559,13 +563,13 @@ theorem fk_cancelGroupMetas {p : Pool} (h : FK M p) (g : String) : FK M (p.cance
 /-! ### synchronous API -/
 
 theorem rg_newReq_apply (stars : Nat) (g : String) (sp : SpawnSpec) (n nc : Nat) : RG (newReq .apply stars g sp n [] nc) :=
-  ⟨fun e => nomatch e, fun _ hw => nomatch hw, fun _ _ => rfl, fun _ _ e => nomatch e, fun _ => rfl, fun e => nomatch e,
-    fun e => nomatch e, fun e => nomatch e⟩
+  ⟨fun e => (nomatch e), fun _ hw => (nomatch hw), fun _ _ => rfl, fun _ _ e => (nomatch e), fun _ => rfl,
+    fun e => (nomatch e), fun e => (nomatch e), fun e => (nomatch e)⟩
 
 theorem rg_newReq_map (stars : Nat) (g : String) (sp : SpawnSpec) (items : List Item) (nc : Nat) (hnc : 1 ≤ nc) :
     RG (newReq .map stars g sp 0 items nc) :=
-  ⟨fun e => nomatch e, fun _ hw => nomatch hw, fun _ _ => rfl, fun _ _ e => nomatch e, fun e => nomatch e, fun _ => rfl,
-    fun e => nomatch e, fun _ => hnc⟩
+  ⟨fun e => (nomatch e), fun _ hw => (nomatch hw), fun _ _ => rfl, fun _ _ e => (nomatch e), fun e => (nomatch e),
+    fun _ => rfl, fun e => (nomatch e), fun _ => hnc⟩
 
 theorem fk_register {p : Pool} (h : FK M p) (r : Req) (hr : RG r) : FK M (p.register r) := by
   unfold register
@@ -733,7 +737,7 @@ theorem fk_gatherStart {p : Pool} (h : FK M p) (children : List Child) (re : Boo
 
 theorem fk_finishApi {p : Pool} (h : FK M p) (a : Nat) (o : Outcome) : FK M (p.finishApi a o) := by
   unfold finishApi
-  exact fk_modApi h _ _ (fun _ => rfl)
+  exact fk_modApi h _ _
 
 theorem fk_flushAfter2 {p : Pool} (h : FK M p) (a : Nat) (o : Outcome) : FK M (p.flushAfter2 a o) := by
   unfold flushAfter2
@@ -751,8 +755,8 @@ theorem fk_flushAfter1 {p : Pool} (h : FK M p) (a : Nat) (re : Bool) (o : Outcom
       fk_mapReqs h (fun (r : Req) => { r with inCancelled := false }) rfl rfl rfl rfl
         (fun r hg => ⟨rg_of_eq hg id rfl (fun _ a _ => a) rfl rfl rfl rfl rfl id rfl, id, rfl, rfl⟩)
     split
-    · exact fk_flushAfter2 (fk_gatherStart (fk_modApi t1 _ _ (fun _ => rfl)) _ _ _ _) a _
-    · exact fk_modApi (fk_gatherStart (fk_modApi t1 _ _ (fun _ => rfl)) _ _ _ _) _ _ (fun _ => rfl)
+    · exact fk_flushAfter2 (fk_gatherStart (fk_modApi t1 _ _ ) _ _ _ _) a _
+    · exact fk_modApi (fk_gatherStart (fk_modApi t1 _ _) _ _ _ _) _ _
 
 theorem fk_flushStage1 {p : Pool} (h : FK M p) (a : Nat) (re : Bool) : FK M (p.flushStage1 a re) := by
   unfold flushStage1
@@ -768,13 +772,13 @@ theorem fk_flushStage1 {p : Pool} (h : FK M p) (a : Nat) (re : Bool) : FK M (p.f
     · exact ⟨hg, id, rfl, rfl⟩
   split
   · exact fk_flushAfter1 (fk_gatherStart t1 _ _ _ _) a re _
-  · exact fk_modApi (fk_gatherStart t1 _ _ _ _) _ _ (fun _ => rfl)
+  · exact fk_modApi (fk_gatherStart t1 _ _ _ _) _ _
 
 theorem fk_untilClosedStart {p : Pool} (h : FK M p) (a : Nat) : FK M (p.untilClosedStart a) := by
   unfold untilClosedStart
   split
   · exact fk_finishApi h a _
-  · exact fk_modApi (fk_of_eq h (by rfl) (by rfl) (by rfl) (by rfl)) _ _ (fun _ => rfl)
+  · exact fk_modApi (fk_of_eq h (by rfl) (by rfl) (by rfl) (by rfl)) _ _
 
 theorem fk_stepApi_rest {p : Pool} (h : FK M p) (a : Nat) (A : Api) (hk : ∀ re, A.kind ≠ .gac re) :
     FK M (match A.frame, A.kind with
@@ -813,7 +817,7 @@ theorem fk_stepApi {p : Pool} (h : FK M p) (a : Nat) : FK M (p.stepApi a) := by
     split
     · exact h
     · simp only
-      exact fk_stepApi_rest (fk_modApi h _ _ (fun _ => rfl)) a A (h.nog a A hA)
+      exact fk_stepApi_rest (fk_modApi h _ _) a A (h.nog a A hA)
 
 theorem fk_addApi {p : Pool} (h : FK M p) (k : ApiKind) (hk : ∀ re, k ≠ .gac re) : FK M (p.addApi k) := by
   unfold addApi
@@ -1008,6 +1012,492 @@ theorem fk_stepTask {p : Pool} (h : FK M p) (t : Nat) : FK M (p.stepTask t) := b
       · exact fk_stepInCancelCb h1 t tk
       · exact fk_stepInEndCb h1 t tk
       · exact h1
+
+/-! ### spawners: facts about the record of the spawner whose handle is being run -/
+
+/-- the fields of a request nobody but the spawner's own last step (`outcome`) and `cancel_group` (`everCancelled`) writes -/
+def Key (r : Req) : ReqKind × Option Outcome × Bool := (r.kind, r.outcome, r.everCancelled)
+
+/-- request `m` exists and its key satisfies `P` -/
+def At (p : Pool) (m : Nat) (P : ReqKind × Option Outcome × Bool → Prop) : Prop := ∃ r, p.reqs[m]? = some r ∧ P (Key r)
+
+/-- an apply-style spawner whose asyncio Task is not done -/
+abbrev PA : ReqKind × Option Outcome × Bool → Prop := fun k => k.1 = .apply ∧ k.2.1 = none
+/-- a map-style spawner whose asyncio Task is not done -/
+abbrev PMp : ReqKind × Option Outcome × Bool → Prop := fun k => k.1 = .map ∧ k.2.1 = none
+/-- a spawner whose asyncio Task is not done -/
+abbrev PL : ReqKind × Option Outcome × Bool → Prop := fun k => k.2.1 = none
+/-- a spawner filed as cancelled -/
+abbrev PE : ReqKind × Option Outcome × Bool → Prop := fun k => k.2.2 = true
+
+variable {P : ReqKind × Option Outcome × Bool → Prop}
+
+theorem At.of_eq {p q : Pool} {m : Nat} (h : At p m P) (hr : q.reqs = p.reqs) : At q m P := by
+  unfold At; rw [hr]; exact h
+
+theorem At.modReq {p : Pool} {m : Nat} (h : At p m P) (i : Nat) (f : Req → Req)
+    (hf : ∀ r, Key (f r) = Key r := by intro r; rfl) :
+    At (p.modReq i f) m P := by
+  obtain ⟨r, hp, hP⟩ := h
+  refine ⟨_, by exact modify_get hp, ?_⟩
+  split
+  · rw [hf]; exact hP
+  · exact hP
+
+theorem At.get {p : Pool} {m : Nat} (h : At p m P) {r : Req} (hp : p.reqs[m]? = some r) : P (Key r) := by
+  obtain ⟨r0, hp0, hP⟩ := h
+  rw [hp] at hp0; cases hp0; exact hP
+
+theorem At.schedOpt {p : Pool} {m : Nat} (h : At p m P) (o : Option Nat) : At (p.schedOpt o) m P := by
+  cases o with
+  | none => exact h
+  | some i =>
+    show At (p.schedMeta i) m P
+    unfold schedMeta
+    exact (h.modReq i _).of_eq rfl
+
+theorem At.releasePool {p : Pool} {m : Nat} (h : At p m P) : At p.releasePool m P := by
+  unfold Pool.releasePool
+  exact (h.of_eq (q := { p with sem := p.sem.release.1 }) rfl).schedOpt _
+
+theorem At.releaseMap {p : Pool} {m : Nat} (h : At p m P) (i : Nat) : At (p.releaseMap i) m P := by
+  unfold Pool.releaseMap
+  split
+  · exact h
+  · exact (h.modReq i _).schedOpt _
+
+theorem At.createTask {p : Pool} {m : Nat} (h : At p m P) (i : Nat) (isMap : Bool) : At (p.createTask i isMap) m P := by
+  unfold Pool.createTask
+  simp only
+  refine At.of_eq (p := Pool.modReq _ i fun x => { x with created := x.created + 1 }) ?_ rfl
+  exact (h.of_eq (by rfl)).modReq i _
+
+theorem At.takeSlotAndCreate {p : Pool} {m : Nat} (h : At p m P) (i : Nat) (isMap : Bool) :
+    At (p.takeSlotAndCreate i isMap) m P := by
+  unfold Pool.takeSlotAndCreate
+  exact (h.of_eq (q := { p with sem := { p.sem with value := p.sem.value.dec } }) rfl).createTask i isMap
+
+theorem fk_pin {p : Pool} (h : FK M p) {m : Nat} (hm : At p m PMp) : FK (PM m) p :=
+  { h with pin := fun i hi => by cases hi; exact hm }
+
+/-! ### spawners: the walk -/
+
+/-- the spawner's asyncio Task is done: normally with nothing left, or by an exception of its argument iterator — unless
+it was filed as cancelled -/
+theorem fk_finishMeta {p : Pool} (h : FK M p) (m : Nat) (o : Outcome)
+    (ho : ∀ r, p.reqs[m]? = some r → r.everCancelled = false →
+      (o = .ok ∧ r.remaining = 0 ∧ r.items = []) ∨ (r.kind = .map ∧ o = .exc (.user 4))) : FK0 (p.finishMeta m o) := by
+  unfold finishMeta
+  split
+  · exact h.zero
+  · rename_i r hp
+    refine fk_emitChildren (fk_modReq h.zero m _ (fun r0 hp0 hg => ?_)) _
+    rw [hp] at hp0; cases hp0
+    refine ⟨⟨fun e => (nomatch e), hg.cm, fun e => (nomatch e), fun hec o' e => ?_, hg.ka, hg.km, fun e => (nomatch e), hg.kn⟩,
+      id, fun f => f.elim⟩
+    have hmc : r.mustCancel = false := by
+      cases hc : r.mustCancel with
+      | false => rfl
+      | true => have := hg.cg hc; rw [hec] at this; cases this
+    simp only [hmc, Bool.and_false, Bool.false_eq_true, if_false, Option.some.injEq] at e
+    subst e
+    exact ho r hp hec
+
+theorem fk_pushWaiter {p : Pool} (h : FK M p) (w : Waiter)
+    (hw : w.st = .cancelled → ∃ r, p.reqs[w.owner]? = some r ∧ r.everCancelled = true) :
+    FK M ({ p with sem := { p.sem with waiters := p.sem.waiters ++ [w] } } : Pool) := by
+  refine fk_reqs_eq h rfl rfl rfl (fun w' hw' hst => ?_)
+  rcases List.mem_append.mp hw' with a | a
+  · exact Or.inl a
+  · rw [List.mem_singleton] at a; subst a; exact Or.inr (hw hst)
+
+/-- `must_cancel` read through `getD default`: set only if the request exists (and then it was filed as cancelled) -/
+theorem fk_mc_ec {p : Pool} (h : FK M p) (m : Nat) (hmc : (p.reqs[m]?.getD default).mustCancel = true) :
+    ∃ r, p.reqs[m]? = some r ∧ r.everCancelled = true := by
+  cases hp : p.reqs[m]? with
+  | none => rw [hp] at hmc; cases hmc
+  | some r =>
+    rw [hp] at hmc
+    exact ⟨r, rfl, (h.rg m r hp).cg hmc⟩
+
+theorem fk_waitRoom_core {p : Pool} (h : FK M p) (m : Nat) (st : WaitSt)
+    (hst : st = .cancelled → (p.reqs[m]?.getD default).mustCancel = true) :
+    FK M (({ p with sem := { p.sem with waiters := p.sem.waiters ++ [{ owner := m, st := st }] } } : Pool).modReq m
+        fun x => { x with frame := .waitRoom, mustCancel := false }) :=
+  fk_mr (fk_pushWaiter h _ (fun e => fk_mc_ec h m (hst e)))
+
+theorem fk_waitRoom {p : Pool} (h : FK M p) (m : Nat) : FK M (p.waitRoom m) := by
+  unfold waitRoom
+  simp only
+  split
+  · rename_i c
+    exact fk_schedMeta (fk_waitRoom_core h m _ (fun _ => c)) m
+  · exact fk_waitRoom_core h m _ (fun e => (nomatch e))
+
+theorem fk_waitMapSem_core {p : Pool} (h : FK M p) (m : Nat) (hk : ∀ r, p.reqs[m]? = some r → r.kind = .map)
+    (st : WaitSt) (hst : st = .cancelled → (p.reqs[m]?.getD default).mustCancel = true) :
+    FK M (p.modReq m fun x => { x with frame := .waitMapSem, mustCancel := false, acquired := false, mapSem := { x.mapSem with waiters := x.mapSem.waiters ++ [{ owner := m, st := st }] } }) := by
+  refine fk_modReq h m _ (fun r hp hg => ?_)
+  refine ⟨⟨fun e => (nomatch e), fun w hw hc => ?_, hg.ir, hg.ok, hg.ka, hg.km, fun _ => hk r hp, hg.kn⟩, id,
+    fun _ => ⟨rfl, rfl⟩⟩
+  rcases List.mem_append.mp hw with a | a
+  · exact hg.cm w a hc
+  · rw [List.mem_singleton] at a; subst a
+    have := hst hc
+    rw [hp] at this
+    exact hg.cg this
+
+theorem fk_waitMapSem {p : Pool} (h : FK M p) (m : Nat) (hk : ∀ r, p.reqs[m]? = some r → r.kind = .map) :
+    FK M (p.waitMapSem m) := by
+  unfold waitMapSem
+  simp only
+  split
+  · rename_i c
+    exact fk_schedMeta (fk_waitMapSem_core h m hk _ (fun _ => c)) m
+  · exact fk_waitMapSem_core h m hk _ (fun e => (nomatch e))
+
+theorem fk_createTask {p : Pool} (h : FK M p) (m : Nat) (isMap : Bool) : FK M (p.createTask m isMap) := by
+  unfold createTask
+  simp only
+  refine fk_emitRef ?_ _
+  exact fk_mr (fk_of_eq h (by rfl) (by rfl) (by rfl) (by rfl))
+
+theorem fk_takeSlotAndCreate {p : Pool} (h : FK M p) (m : Nat) (isMap : Bool) : FK M (p.takeSlotAndCreate m isMap) := by
+  unfold takeSlotAndCreate
+  exact fk_createTask (fk_of_eq h (by rfl) (by rfl) (by rfl) (by rfl)) m isMap
+
+/-- a spawner that is filed as running makes `_start_task` ignore the lock -/
+theorem groupHasRunningMeta_of {p : Pool} {m : Nat} {r : Req} (hp : p.reqs[m]? = some r) (hin : r.inRunning = true) :
+    p.groupHasRunningMeta m = true := by
+  unfold groupHasRunningMeta
+  simp only [hp, Option.getD_some, List.any_eq_true]
+  exact ⟨r, List.mem_of_getElem? hp, by simp [hin]⟩
+
+theorem fk_applyLoop (m n : Nat) (p : Pool) (h : FK M p) (ha : At p m PA) : FK0 (applyLoop m n p) := by
+  induction n generalizing p with
+  | zero =>
+    unfold applyLoop
+    obtain ⟨r, hp, hk, ho⟩ := ha
+    have hk : r.kind = .apply := hk
+    have ho : r.outcome = none := ho
+    refine fk_finishMeta (fk_modReq h m _ (fun r0 hp0 hg => ?_)) m .ok (fun r' hp' _ => ?_)
+    · rw [hp] at hp0; cases hp0
+      exact ⟨⟨hg.cg, hg.cm, hg.ir, fun _ o e => (by rw [show r.outcome = some o from e] at ho; cases ho), hg.ka,
+        fun _ => rfl, hg.kw, hg.kn⟩, id, fun _ => ⟨rfl, rfl⟩⟩
+    · rw [modReq_get_self p m _ r hp] at hp'; cases hp'
+      exact Or.inl ⟨rfl, rfl, (h.rg m r hp).ka hk⟩
+  | succ n ih =>
+    unfold applyLoop
+    simp only
+    obtain ⟨r, hp, hk, ho⟩ := ha
+    have hk : r.kind = .apply := hk
+    have ho : r.outcome = none := ho
+    have h0 : FK M (p.modReq m fun x => { x with remaining := n + 1 }) := by
+      refine fk_modReq h m _ (fun r0 hp0 hg => ?_)
+      rw [hp] at hp0; cases hp0
+      exact ⟨⟨hg.cg, hg.cm, hg.ir, fun _ o e => (by rw [show r.outcome = some o from e] at ho; cases ho), hg.ka,
+        fun e => (by rw [show r.kind = .map from e] at hk; cases hk), hg.kw, hg.kn⟩, id, fun _ => ⟨rfl, rfl⟩⟩
+    have hp0 : (p.modReq m fun x => { x with remaining := n + 1 }).reqs[m]? = some { r with remaining := n + 1 } :=
+      modReq_get_self p m _ r hp
+    have ha0 : At (p.modReq m fun x => { x with remaining := n + 1 }) m PA := ⟨_, hp0, hk, ho⟩
+    split
+    · exact ih _ (fk_mr h0) (ha0.modReq m _)
+    · split
+      · rename_i c
+        have := h0.ncl
+        rw [this] at c; cases c
+      · split
+        · rename_i c
+          refine fk_finishMeta h0 m _ (fun r' hp' hec => ?_)
+          rw [hp0] at hp'; cases hp'
+          exfalso
+          have hin := (h0.rg m _ hp0).ir ho hec
+          have := groupHasRunningMeta_of hp0 hin
+          simp [this] at c
+        · split
+          · exact (fk_waitRoom h0 m).zero
+          · exact ih _ (fk_takeSlotAndCreate h0 m false) (ha0.takeSlotAndCreate m false)
+
+theorem fk_mapStartTask {p : Pool} (h : FK M p) (m : Nat) : FK M (p.mapStartTask m).1 := by
+  unfold mapStartTask
+  split
+  · rename_i c
+    have := h.ncl
+    rw [this] at c; cases c
+  · split
+    · exact fk_waitRoom h m
+    · exact fk_takeSlotAndCreate h m true
+
+/-- one pull from the argument iterator: user code runs, the spawner stays what it is -/
+theorem fk_pullItem {p : Pool} {m : Nat} (h : FK (PM m) p) (rest : List Item) : FK (PM m) (p.pullItem m rest) := by
+  unfold pullItem
+  simp only
+  refine fk_runHooks (fk_logEv (fk_modReq h m _ (fun r hp hg => ?_)) _) _ _
+  obtain ⟨r0, hp0, hk, ho⟩ := h.pin m rfl
+  rw [hp] at hp0; cases hp0
+  exact ⟨⟨hg.cg, hg.cm, hg.ir, fun _ o e => (by rw [show r.outcome = some o from e] at ho; cases ho),
+    fun e => (by rw [show r.kind = .apply from e] at hk; cases hk), hg.km, fun e => (nomatch e), hg.kn⟩, id,
+    fun _ => ⟨rfl, rfl⟩⟩
+
+theorem fk_takeMapSlot {p : Pool} (h : FK M p) (m : Nat) : FK M (p.takeMapSlot m) := by
+  unfold takeMapSlot
+  exact fk_mr h
+
+theorem fk_mapLoop (m : Nat) (items : List Item) (p : Pool) (h : FK (PM m) p) : FK0 (mapLoop m items p) := by
+  induction items generalizing p with
+  | nil =>
+    unfold mapLoop
+    obtain ⟨r, hp, hk, ho⟩ := h.pin m rfl
+    refine fk_finishMeta (fk_modReq h m _ (fun r0 hp0 hg => ?_)) m .ok (fun r' hp' _ => ?_)
+    · rw [hp] at hp0; cases hp0
+      exact ⟨⟨hg.cg, hg.cm, hg.ir, fun _ o e => (by rw [show r.outcome = some o from e] at ho; cases ho), fun _ => rfl,
+        hg.km, hg.kw, hg.kn⟩, id, fun _ => ⟨rfl, rfl⟩⟩
+    · rw [modReq_get_self p m _ r hp] at hp'; cases hp'
+      exact Or.inl ⟨rfl, (h.rg m r hp).km hk, rfl⟩
+  | cons it rest ih =>
+    unfold mapLoop
+    simp only
+    have h0 := fk_pullItem h rest
+    split
+    · refine fk_finishMeta h0 m _ (fun r' hp' _ => ?_)
+      obtain ⟨r, hp, hk, _⟩ := h0.pin m rfl
+      rw [hp] at hp'; cases hp'
+      exact Or.inr ⟨hk, rfl⟩
+    · split
+      · exact ih _ (fk_mr h0)
+      · split
+        · refine (fk_waitMapSem h0 m (fun r hp => ?_)).zero
+          obtain ⟨r1, hp1, hk, _⟩ := h0.pin m rfl
+          rw [hp] at hp1; cases hp1; exact hk
+        · have h1 := fk_mapStartTask (fk_takeMapSlot h0 m) m
+          split
+          · exact ih _ h1
+          · exact h1.zero
+
+theorem fk_continueSpawner {p : Pool} (h : FK M p) (m : Nat) (hl : At p m PL) : FK0 (p.continueSpawner m) := by
+  unfold continueSpawner
+  simp only
+  obtain ⟨r, hp, ho⟩ := hl
+  simp only [hp, Option.getD_some]
+  split
+  · rename_i hk; exact fk_applyLoop m _ p h ⟨r, hp, hk, ho⟩
+  · rename_i hk; exact fk_mapLoop m _ p (fk_pin h ⟨r, hp, hk, ho⟩)
+
+theorem fk_stepMetaNotStarted {p : Pool} (h : FK M p) (m : Nat) (r : Req)
+    (hp : p.reqs[m]? = some { r with sched := false }) (ho : r.outcome = none) : FK0 (p.stepMetaNotStarted m r) := by
+  unfold stepMetaNotStarted
+  split
+  · rename_i c
+    refine fk_finishMeta h m _ (fun r' hp' hec => ?_)
+    rw [hp] at hp'; cases hp'
+    have := (h.rg m _ hp).cg c
+    rw [hec] at this; cases this
+  · split
+    · rename_i hk; exact fk_applyLoop m _ p h ⟨_, hp, hk, ho⟩
+    · rename_i hk; exact fk_mapLoop m _ p (fk_pin h ⟨_, hp, hk, ho⟩)
+
+/-- `CancelledError` inside `_enough_room.acquire()`: the spawner was filed as cancelled -/
+theorem fk_roomWaitCancelled {p : Pool} (h : FK M p) (m : Nat) (r : Req) (st : Option WaitSt) (he : At p m PE) :
+    FK0 (p.roomWaitCancelled m r st) := by
+  unfold roomWaitCancelled
+  simp only
+  have h1 : FK M (if (st == some WaitSt.granted) = true then p.releasePool else p) ∧
+      At (if (st == some WaitSt.granted) = true then p.releasePool else p) m PE := by
+    split
+    · exact ⟨fk_releasePool h, he.releasePool⟩
+    · exact ⟨h, he⟩
+  generalize (if (st == some WaitSt.granted) = true then p.releasePool else p) = q at h1 ⊢
+  have h2 : FK M (if (r.kind == ReqKind.map && r.acquired) = true then q.releaseMap m else q) ∧
+      At (if (r.kind == ReqKind.map && r.acquired) = true then q.releaseMap m else q) m PE := by
+    split
+    · exact ⟨fk_releaseMap h1.1 m, h1.2.releaseMap m⟩
+    · exact h1
+  generalize (if (r.kind == ReqKind.map && r.acquired) = true then q.releaseMap m else q) = q2 at h2 ⊢
+  refine fk_finishMeta h2.1 m _ (fun r' hp' hec => ?_)
+  have := h2.2.get hp'
+  rw [show r'.everCancelled = true from this] at hec; cases hec
+
+theorem fk_roomGranted {p : Pool} (h : FK M p) (m : Nat) (r : Req) (hl : At p m PL) : FK0 (p.roomGranted m r) := by
+  unfold roomGranted
+  simp only
+  have h0 : FK M (p.modReq m fun x => { x with frame := MFrame.running }) := fk_mr h
+  have l0 : At (p.modReq m fun x => { x with frame := MFrame.running }) m PL := hl.modReq m _
+  refine fk_continueSpawner (M := M) (fk_createTask ?_ _ _) m (At.createTask ?_ _ _)
+  · split
+    · exact fk_wake h0 _ rfl
+    · exact h0
+  · split
+    · exact (l0.of_eq (q := { (p.modReq m fun x => { x with frame := MFrame.running }) with
+        sem := (p.modReq m fun x => { x with frame := MFrame.running }).sem.wakeNext.1 }) rfl).schedOpt _
+    · exact l0
+
+theorem fk_wakeWaitRoomCore {p : Pool} (h : FK M p) (m : Nat) (r : Req)
+    (hp : p.reqs[m]? = some { r with sched := false }) (ho : r.outcome = none) : FK0 (p.wakeWaitRoomCore m r) := by
+  unfold wakeWaitRoomCore
+  simp only
+  have h2 : FK M (({ p with sem := { p.sem with waiters := (removeWaiterL m p.sem.waiters).2 } } : Pool).modReq m
+      fun x => { x with mustCancel := false }) :=
+    fk_mr (fk_sem h _ (fun w' hw' _ => (removeWaiterL_sublist _ _).subset hw'))
+  have hp2 : (({ p with sem := { p.sem with waiters := (removeWaiterL m p.sem.waiters).2 } } : Pool).modReq m
+      fun x => { x with mustCancel := false }).reqs[m]? = some { { r with sched := false } with mustCancel := false } :=
+    modReq_get_self _ m _ _ hp
+  split
+  · rename_i c
+    refine fk_roomWaitCancelled h2 m r _ ⟨_, hp2, ?_⟩
+    show r.everCancelled = true
+    simp only [Bool.or_eq_true, beq_iff_eq] at c
+    rcases c with c | c
+    · obtain ⟨w, hw, hwo, hst⟩ := removeWaiterL_fst_some _ _ _ c
+      obtain ⟨r0, hp0, he⟩ := h.cw w hw hst
+      rw [hwo, hp] at hp0; cases hp0
+      exact he
+    · exact (h.rg m _ hp).cg c
+  · split
+    · exact fk_roomGranted h2 m r ⟨_, hp2, ho⟩
+    · exact h2.zero
+
+theorem fk_wakeWaitRoom {p : Pool} (h : FK M p) (m : Nat) (r : Req)
+    (hp : p.reqs[m]? = some { r with sched := false }) (ho : r.outcome = none) : FK0 (p.wakeWaitRoom m r) := by
+  unfold wakeWaitRoom
+  split
+  · exact fk_wakeWaitRoomCore h m r hp ho
+  · exact h.zero
+
+theorem fk_mapSemGranted {p : Pool} {m : Nat} (h : FK (PM m) p) (r : Req) : FK0 (p.mapSemGranted m r) := by
+  unfold mapSemGranted
+  simp only
+  have h1 := fk_mapStartTask (p := p.modReq m fun x => { x with acquired := true, frame := MFrame.running }) (fk_mr h) m
+  split
+  · exact fk_mapLoop m _ _ h1
+  · exact h1.zero
+
+/-- whatever `acquire()` does to the call's own semaphore on its way out produces no cancelled entry -/
+theorem fk_s2 (s1 : Sem) (b c : Bool) :
+    ∀ w ∈ (if b = true then (if c = true then s1.release else if (!s1.value.isZero) = true then s1.wakeNext else (s1, none))
+      else (s1, none)).1.waiters, w.st = .cancelled → w ∈ s1.waiters := by
+  intro w hw hst
+  cases b <;> cases c <;> cases hz : s1.value.isZero <;>
+    simp only [hz, Bool.false_eq_true, if_false, if_true, Bool.not_false, Bool.not_true, Sem.release] at hw
+  all_goals first
+    | exact hw
+    | (rw [wakeNext_waiters] at hw; exact wakeNextL_cancelled _ _ _ hw hst)
+
+theorem fk_wakeWaitMapSemCore {p : Pool} (h : FK M p) (m : Nat) (r : Req)
+    (hp : p.reqs[m]? = some { r with sched := false }) (ho : r.outcome = none) (hfr : r.frame = .waitMapSem) :
+    FK0 (p.wakeWaitMapSemCore m r) := by
+  unfold wakeWaitMapSemCore
+  simp only
+  have hs2 := fk_s2 { r.mapSem with waiters := (removeWaiterL m r.mapSem.waiters).2 }
+    ((removeWaiterL m r.mapSem.waiters).1 == some WaitSt.granted)
+    ((removeWaiterL m r.mapSem.waiters).1 == some WaitSt.cancelled || r.mustCancel)
+  generalize (if ((removeWaiterL m r.mapSem.waiters).1 == some WaitSt.granted) = true then _ else _ : Sem × Option Nat) = s2 at hs2 ⊢
+  have hg := h.rg m _ hp
+  have hk : r.kind = .map := hg.kw hfr
+  have h2 : FK M ((p.modReq m fun x => { x with mapSem := s2.1, mustCancel := false }).schedOpt s2.2) := by
+    refine fk_schedOpt (fk_modReq h m _ (fun r0 hp0 hg0 => ?_)) _
+    rw [hp] at hp0; cases hp0
+    refine ⟨rg_of_eq hg0 (fun e => (nomatch e)) rfl (fun w hw hst => ?_) rfl rfl rfl rfl rfl id rfl, id, fun _ => ⟨rfl, rfl⟩⟩
+    exact (removeWaiterL_sublist _ _).subset (hs2 w hw hst)
+  have a2 : ∀ {P : ReqKind × Option Outcome × Bool → Prop}, P (Key r) →
+      At ((p.modReq m fun x => { x with mapSem := s2.1, mustCancel := false }).schedOpt s2.2) m P := by
+    intro P hP
+    exact (At.modReq (P := P) ⟨_, hp, hP⟩ m _).schedOpt _
+  split
+  · rename_i c
+    refine fk_finishMeta h2 m _ (fun r' hp' hec => ?_)
+    have hE : r.everCancelled = true := by
+      simp only [Bool.or_eq_true, beq_iff_eq] at c
+      rcases c with c | c
+      · obtain ⟨w, hw, _, hst⟩ := removeWaiterL_fst_some _ _ _ c
+        exact hg.cm w hw hst
+      · exact hg.cg c
+    have := (a2 (P := PE) hE).get hp'
+    rw [show r'.everCancelled = true from this] at hec; cases hec
+  · split
+    · exact fk_mapSemGranted (fk_pin h2 (a2 (P := PMp) ⟨hk, ho⟩)) r
+    · exact h2.zero
+
+theorem fk_wakeWaitMapSem {p : Pool} (h : FK M p) (m : Nat) (r : Req)
+    (hp : p.reqs[m]? = some { r with sched := false }) (ho : r.outcome = none) (hfr : r.frame = .waitMapSem) :
+    FK0 (p.wakeWaitMapSem m r) := by
+  unfold wakeWaitMapSem
+  split
+  · exact fk_wakeWaitMapSemCore h m r hp ho hfr
+  · exact h.zero
+
+/-- a spawner takes a step; `Want.od`: a spawner whose asyncio Task is done is never resumed -/
+theorem fk_stepMeta {p : Pool} (h : FK0 p) (hW : Want p) (m : Nat) : FK0 (p.stepMeta m) := by
+  unfold stepMeta
+  split
+  · exact h
+  · rename_i r hp
+    split
+    · exact h
+    · simp only
+      have h1 : FK0 (p.modReq m fun x => { x with sched := false }) := fk_mr h
+      have hp1 : (p.modReq m fun x => { x with sched := false }).reqs[m]? = some { r with sched := false } :=
+        modReq_get_self p m _ r hp
+      have ho : r.frame ≠ .done → r.outcome = none := by
+        intro hne
+        cases hout : r.outcome with
+        | none => rfl
+        | some o => exact absurd (hW.od m r hp id (by simp [hout])) hne
+      split
+      · exact h1
+      · exact h1
+      · rename_i hfr; exact fk_stepMetaNotStarted h1 m r hp1 (ho (by rw [hfr]; simp))
+      · rename_i hfr; exact fk_wakeWaitRoom h1 m r hp1 (ho (by rw [hfr]; simp))
+      · rename_i hfr; exact fk_wakeWaitMapSem h1 m r hp1 (ho (by rw [hfr]; simp)) hfr
+
+/-! ### assembly -/
+
+theorem fk_runRef {p : Pool} (h : FK0 p) (hW : Want p) (r : Ref) : FK0 (p.runRef r) := by
+  cases r with
+  | task t => exact fk_stepTask h t
+  | spawner m => exact fk_stepMeta h hW m
+  | api a => exact fk_stepApi h a
+  | gchild g i => exact fk_gatherChildDone h g i true
+
+theorem fk_init (size : Cap) (simple : Option SpawnSpec) : FK0 (Pool.init size simple) := by
+  refine { nog := ?_, ncl := rfl, rg := ?_, cw := ?_, pin := fun _ f => f.elim }
+  all_goals simp [Pool.init]
+
+/-- between two steps the walking predicate is `FinOK`; that a cancelled waiter entry belongs to an existing request is
+part of `Want` -/
+theorem fk_of_wantFin {p : Pool} (hW : Want p) (hF : FinOK p) : FK0 p where
+  nog := hF.nog
+  ncl := hF.ncl
+  rg := fun m r hp => ⟨hF.cg m r hp, hF.cm m r hp, hF.ir m r hp, hF.ok m r hp, hF.ka m r hp, hF.km m r hp, hF.kw m r hp,
+    hF.nc1 m r hp⟩
+  cw := fun w hw hst => by
+    obtain ⟨r, hp, _⟩ := hW.pw w hw
+    exact ⟨r, hp, hF.cw w hw hst r hp⟩
+  pin := fun _ f => f.elim
+
+theorem wantFin_init (size : Cap) (simple : Option SpawnSpec) : WantFin (Pool.init size simple) :=
+  ⟨want_init size simple, (fk_init size simple).finOK⟩
+
+theorem wantFin_applyOp (p : Pool) (orders : List (List Nat)) (o : Op) (ho : noGac o = true) (h : WantFin p) :
+    WantFin (({ p with orders := orders } : Pool).applyOp o).1 :=
+  ⟨want_applyOp p orders o h.1,
+    (fk_applyOp (fk_of_eq (fk_of_wantFin h.1 h.2) (q := { p with orders := orders }) rfl rfl rfl rfl) o ho).finOK⟩
+
+theorem wantFin_runRef (p : Pool) (orders : List (List Nat)) (r : Ref) (h : WantFin p) :
+    WantFin (({ p with orders := orders } : Pool).runRef r) :=
+  ⟨want_runRef p orders r h.1,
+    (fk_runRef (fk_of_eq (fk_of_wantFin h.1 h.2) (q := { p with orders := orders }) rfl rfl rfl rfl)
+      (wk_of_eq h.1.wk (q := { p with orders := orders }) rfl rfl rfl).toWantOK r).finOK⟩
+
+theorem wantFin_drain (p : Pool) (h : WantFin p) : WantFin { p with emit := [] } :=
+  ⟨want_drain p h.1, (fk_of_eq (fk_of_wantFin h.1 h.2) (q := { p with emit := [] }) rfl rfl rfl rfl).finOK⟩
+
+/-- **a spawner that was never cancelled ends only when its work is done**, in every pool of every reachable world of a
+history without `gather_and_close` -/
+theorem finInvariant : PoolInvariant (fun _ p => WantFin p) noGac where
+  init := fun c simple _ => wantFin_init c.size0 simple
+  op := fun _ p orders o ho h => wantFin_applyOp p orders o ho h
+  run := fun _ p orders r h => wantFin_runRef p orders r h
+  drain := fun _ p h => wantFin_drain p h
 
 end Pool
 end Taskpool
